@@ -154,6 +154,8 @@ class TextFileStorage(Storage[str]):
             self._index[:] = []
             self._stored_cnt.value = 0
             self._waiting_for.value = 0
+            # the file of this process was removed too, a new one must be assigned on next write
+            self._process_identifier = None
 
     def is_contiguous(self) -> bool:
         """
